@@ -112,7 +112,7 @@ def plan(tier, seed):
             groups.append(pairs[k:k + 150])
     wf = []
     for mode in ("disp", "fsets", "fz", "mesh", "band", "qpoints", "dos", "pdos", "thermal", "tdisp", "writefc", "nac", "load", "mass"):
-        for var in range({"mass": 2, "disp": 4, "mesh": 6, "band": 5, "qpoints": 2, "dos": 5, "pdos": 3, "thermal": 5, "tdisp": 3, "writefc": 4, "nac": 3, "fsets": 2, "fz": 1, "load": 6}[mode]):
+        for var in range({"mass": 2, "disp": 4, "mesh": 6, "band": 5, "qpoints": 2, "dos": 5, "pdos": 3, "thermal": 5, "tdisp": 5, "writefc": 4, "nac": 3, "fsets": 2, "fz": 1, "load": 6}[mode]):
             wf.append({"kind": "workflow", "mode": mode, "var": var})
             wf.append({"kind": "workflow", "mode": mode, "var": var, "sys": "tri"})
     for var in range(32):
@@ -614,13 +614,16 @@ def run_workflow(case, seed):
                     return fail("thermal-values", "%s in thermal_properties.yaml differs from run_thermal_properties(%s) by %.3g" % (key, kw, np.abs(v - ref).max()))
             return dict(ok=True, nontrivial=var > 0, transitions=2, outcome="ok:thermal")
         if mode == "tdisp":
-            opts = [["--td"], ["--tdm"], ["--td", "--pd", "1", "0", "0"]][var]
-            rc, out = cli(base + ["--mesh", "3", "3", "3", "--tmax", "300", "--tstep", "100", "--fmin", "0.1"] + opts)
+            opts = [["--td"], ["--tdm"], ["--td", "--pd", "1", "0", "0"], ["--td", "--gc"], ["--tdm", "--gc"]][var]
+            # variations 3,4: an even mesh with forced Gamma-centring (it decides which q-points are sampled)
+            M3 = [4, 4, 2] if var >= 3 else [3, 3, 3]
+            mkw = {"is_gamma_center": True} if var >= 3 else {}
+            rc, out = cli(base + ["--mesh"] + [str(x) for x in M3] + ["--tmax", "300", "--tstep", "100", "--fmin", "0.1"] + opts)
             if rc != 0:
                 return fail("cli-failed", out[-300:])
             lp = lib(seed)
-            if var == 1:
-                lp.run_mesh([3, 3, 3], with_eigenvectors=True, is_mesh_symmetry=False)
+            if var in (1, 4):
+                lp.run_mesh(M3, with_eigenvectors=True, is_mesh_symmetry=False, **mkw)
                 lp.run_thermal_displacement_matrices(t_min=0, t_max=300, t_step=100, freq_min=0.1)
                 ref = lp.get_thermal_displacement_matrices_dict()["thermal_displacement_matrices"]
                 y = yaml.safe_load(open("thermal_displacement_matrices.yaml"))
@@ -629,7 +632,7 @@ def run_workflow(case, seed):
                 if got.shape != want.shape or np.abs(got - want).max() > 0.6e-5:  # written with 5 decimals
                     return fail("tdm-file", "thermal_displacement_matrices.yaml differs from the library")
             else:
-                lp.run_mesh([3, 3, 3], with_eigenvectors=True, is_mesh_symmetry=False)
+                lp.run_mesh(M3, with_eigenvectors=True, is_mesh_symmetry=False, **mkw)
                 lp.run_thermal_displacements(t_min=0, t_max=300, t_step=100, freq_min=0.1, direction=([1, 0, 0] if var == 2 else None))
                 ref = np.array(lp.get_thermal_displacements_dict()["thermal_displacements"])
                 y = yaml.safe_load(open("thermal_displacements.yaml"))
